@@ -72,8 +72,22 @@ class C19(Check):
 
         st["shard"] = (root[2], root[3])
         st["sched"] = root[4]
+        def index_f(bid):
+            def f(i):
+                log.append(("b", bid, i))
+                return ("b", bid, i)
+
+            return f
+
         for bid, n in enumerate(root[:2]):
-            st["lists"].append(LazyList([base_callable(bid, i) for i in range(n)]))
+            if bid == 0:
+                ll = LazyList([base_callable(bid, i) for i in range(n)])
+            elif root[0] % 2 == 0:
+                # the public constructors are part of the alphabet too
+                ll = LazyList.init_from_index_callable(index_f(bid), n)
+            else:
+                ll = LazyList.init_from_iterable(list(range(n)), f=index_f(bid))
+            st["lists"].append(ll)
             st["model"].append(tuple(("b", bid, i) for i in range(n)))
         # a base list built through the public class constructor from an index callable
 
